@@ -107,6 +107,9 @@ def variants_of(g, signed, rng):
     key = None if signed['key'] is None else bytes.fromhex(signed['key'])
     K, A, net, attach = g['key'], g['att'], g['net'], g['attach']
     out = [dict(sm=sm, key=key, cls='orig', what='orig', flip=None)]
+    # the authentic message in the other spellings of the same bytes (hex digits in upper / mixed case, blanks between bytes)
+    for sp in ('upper', 'mixed', 'spaced'):
+        out.append(dict(sm=sm, key=key, cls='orig', what='orig-hex-' + sp, flip=None, spell=sp))
     try:
         reg = G.regions(sm)
         arr, _ = cdec(sm, 0)
@@ -360,7 +363,7 @@ def text_table(v):
 # ------------------------------------------------------------------ the run
 def run(ctx, groups):
     t0 = time.time()
-    sign_cases = [dict(op='sign', kind=g['kind'], sk=g['key']['sk'], attach=g['attach'], net=g['net'], msg=g['msg']) for g in groups]
+    sign_cases = [dict(op='sign', kind=g['kind'], sk=g['key']['sk'], attach=g['attach'], net=g['net'], msg=g['msg'], warm=(gi % 2 == 1)) for gi, g in enumerate(groups)]
     signed = C.run_impl('cip8_driver', {'cases': sign_cases}, nshards=min(C.NPROC, len(sign_cases)))
     mism, ofail, notes = [], [], []
     allv = []                                       # (group index, variant)
@@ -381,7 +384,8 @@ def run(ctx, groups):
             v['bech'] = {G.bech32_encode(hrp, ka).encode(): ka}
         allv += [(gi, v) for v in g['variants']]
     t1 = time.time()
-    vcases = [dict(op='verify', vs=[[v['sm'].hex(), None if v['key'] is None else v['key'].hex(), None] for v in g['variants']])
+    vcases = [dict(op='verify', vs=[[v['sm'].hex(), None if v['key'] is None else v['key'].hex(), None, v.get('spell')]
+                                    for v in g['variants']])
               for g in groups if g['variants']]
     vres = C.run_impl('cip8_driver', {'cases': vcases}, nshards=min(C.NPROC, max(1, len(vcases))))
     it = iter(vres)
